@@ -1253,7 +1253,8 @@ class Mps(MatrixProduct):
                 ms = sol.y[:, -1].reshape(shape)
                 mps[imps] = ms
 
-            if len(cmf_rk_steps) > 0:
+            # the variance in the debug statistics needs at least two samples (two-site chains have one)
+            if len(cmf_rk_steps) > 1:
                 steps_stat = stats.describe(cmf_rk_steps)
                 logger.debug(f"{self.evolve_config.method} CMF steps: {steps_stat}")
 
